@@ -14,10 +14,11 @@ import (
 // the canonical form of lean/GopModel/Model/MiniPrint.lean (`printProg`): binary expressions fully
 // parenthesised (source parentheses dropped), one statement per line, no indentation.  Differences
 // the model deliberately abstracts from are normalised here and nowhere else:
-//   * `errors.NewFrame(e, code, FILE, LINE, fn)`: file and line become "FILE", 0;
-//   * gogen's `goto _autoGo_n` followed by the label `_autoGo_n:` (end of an inlined `?` block) is dropped;
-//   * `_autoGo_n` numbers are per package in gogen and per program in the model: within the
+//   - `errors.NewFrame(e, code, FILE, LINE, fn)`: file and line become "FILE", 0;
+//   - gogen's `goto _autoGo_n` followed by the label `_autoGo_n:` (end of an inlined `?` block) is dropped;
+//   - `_autoGo_n` numbers are per package in gogen and per program in the model: within the
 //     functions of one scenario they are shifted so that the smallest is 1.
+//
 // Anything outside the MiniGo subset prints as `/*?<node type>*/` and breaks the comparison.
 type Normalized struct {
 	funcs map[string]*ast.FuncDecl
